@@ -3,7 +3,7 @@
 From AQ Require Import lib.Base model.RangeSet model.StreamRecv model.ConnLimits model.ConnLimitsSpec
   gen.C07Consts proofs.RangeSetP proofs.ConnLimitsP proofs.ConnLimitsAdv proofs.ConnLimitsUsed proofs.ConnLimitsSim
   proofs.ConnLimitsDeliv proofs.ConnLimitsMsd model.ConnLimitsCut proofs.ConnLimitsCutP proofs.ConnLimitsCutInv
-  proofs.ConnLimitsCutEq proofs.ConnLimitsCutOver.
+  proofs.ConnLimitsCutEq proofs.ConnLimitsCutOver proofs.ConnLimitsBurst.
 
 (* over_limit_closes, part 1: in EVERY state, a STREAM / RESET_STREAM / MAX_STREAM_DATA / STREAM_DATA_BLOCKED
    frame that would create a peer-initiated stream beyond the current MAX_STREAMS value is answered with
@@ -346,3 +346,43 @@ Theorem over_advertised_reset_frame : forall c p sid fs r c', Sim c p -> AdvEq c
   over_ok c sid fs r = true.
 Proof. exact over_reset. Qed.
 Print Assumptions over_advertised_reset_frame.
+
+(* ---- bursts that arrive faster than the endpoint drains its queues (round 6) ---------------------------------------
+   buffer_bounded's bound on pending retirements rests on WHERE _handle_new_connection_id_frame evaluates its cap; the
+   position is probed from the source on every run (NCID_RETIRE_CAP_ONLY_WHEN_RAISED = false: a statement of the
+   handler's body, after everything that can grow the list, on every path) and used by proofs/ConnLimitsP.v. *)
+Theorem retire_cap_is_evaluated_on_every_path : NCID_RETIRE_CAP_ONLY_WHEN_RAISED = false.
+Proof. exact retire_cap_on_every_path. Qed.
+Print Assumptions retire_cap_is_evaluated_on_every_path.
+
+(* the late-arrival path (a never-seen sequence number below the processed Retire Prior To is retired at once and does
+   not move Retire Prior To), in EVERY state whose connection IDs are at or above Retire Prior To: one more pending
+   retirement, or CONNECTION_ID_LIMIT_ERROR when that exceeds min(4 * active_connection_id_limit, MAX_PENDING_RETIRES) *)
+Theorem late_arrival_is_capped : forall c seq rpt,
+  NCID_RETIRE_CAP_ONLY_WHEN_RAISED = false -> NCID_LATE_RETIRED = true ->
+  rpt <= seq -> seq < c_cid_rpt c -> existsb (Z.eqb seq) (c_cid_seen c) = false ->
+  c_cid_rpt c <= c_cid_active c -> forallb (fun q => c_cid_rpt c <=? q) (c_cid_avail c) = true ->
+  1 + Zlen (c_cid_avail c) <= LOCAL_ACTIVE_CID_LIMIT ->
+  handle_new_cid c seq rpt =
+    if Zlen (c_retire c) + 1 >? retire_cap then (OErr E_CONNECTION_ID_LIMIT_ERROR FT_NEW_CONNECTION_ID, c)
+    else (OOk RNone, set_cids c (c_cid_active c) (c_cid_avail c) (seq :: c_cid_seen c) (c_cid_rpt c) (c_retire c ++ [seq])).
+Proof. exact late_arrival_step. Qed.
+Print Assumptions late_arrival_is_capped.
+
+(* NEW_CONNECTION_ID(1000, 1000), then 30 never-seen sequence numbers below it, no write pass: the 25th closes *)
+Theorem late_arrival_burst_closes :
+  NCID_RETIRE_CAP_ONLY_WHEN_RAISED = false -> NCID_LATE_RETIRED = true ->
+  Zlen (fst (run after_handshake (late_burst 1000 30))) = 26 /\
+  last (fst (run after_handshake (late_burst 1000 30))) OExn = OErr E_CONNECTION_ID_LIMIT_ERROR FT_NEW_CONNECTION_ID /\
+  Zlen (c_retire (snd (run after_handshake (late_burst 1000 30)))) = retire_cap.
+Proof. exact late_burst_capped. Qed.
+Print Assumptions late_arrival_burst_closes.
+
+(* conditional description of a tree that evaluates the cap only when the frame moved Retire Prior To forward: the bound is
+   false there (vacuous on the tree under test when retire_cap_is_evaluated_on_every_path checks) *)
+Theorem retire_cap_skipped_unbounded_refuted :
+  NCID_RETIRE_CAP_ONLY_WHEN_RAISED = true -> NCID_LATE_RETIRED = true ->
+  exists ops, forallb (fun o => negb (closes o)) (fst (run after_handshake ops)) = true /\
+              Zlen (c_retire (snd (run after_handshake ops))) > retire_cap.
+Proof. exact ConnLimitsBurst.retire_cap_skipped_unbounded_refuted. Qed.
+Print Assumptions retire_cap_skipped_unbounded_refuted.
